@@ -67,3 +67,27 @@ void h_announce(void)
   }
   CANARY_POINT();
 }
+
+/* solvers: a reported nonce is one the validator accepted (validators by contract, PRNG opaque, any attempt) */
+void h_announce_solver(void)
+{
+  protocol__AnnouncePayload *in_p = malloc(sizeof(*in_p)); uint8_t in_difficulty;
+  __CPROVER_assume(in_p != 0);
+  __CPROVER_assume(in_p->endpoint.n <= 0x0000FFFFFFFFFFFFul && in_p->manifest_uri.n <= 0x0000FFFFFFFFFFFFul && in_p->assigned_shards.n <= 0x0000FFFFFFFFFFFFul);
+  in_p->endpoint.p = malloc(in_p->endpoint.n + 1);
+  in_p->manifest_uri.p = malloc(in_p->manifest_uri.n + 1);
+  in_p->assigned_shards.p = malloc(in_p->assigned_shards.n + 1);
+  __CPROVER_assume(in_p->endpoint.p && in_p->manifest_uri.p && in_p->assigned_shards.p);
+  sha_reset(); __g_apv_called = 0;
+  _Bool ok = compute_announce_pow(in_p, in_difficulty);
+  CANARY_POINT();
+}
+void h_handshake_solver(void)
+{
+  arr_u8_32 *in_i = malloc(sizeof(arr_u8_32)), *in_r = malloc(sizeof(arr_u8_32)); uint64_t *in_out = malloc(8);
+  uint32_t in_public; uint8_t in_difficulty;
+  __CPROVER_assume(in_i && in_r && in_out);
+  sha_reset(); __g_hpv_called = 0;
+  _Bool ok = compute_handshake_pow(in_i, in_r, in_public, in_difficulty, in_out);
+  CANARY_POINT();
+}
